@@ -18,6 +18,9 @@ structure DState where
   ac : AlgoCfg
   st : SState
   now : Nat
+  -- c06_periodic
+  ost : OState
+  period : Option F64
 
 def zeroK : KT := { s := { x := ⟨F64.zero, F64.zero⟩, P := ⟨F64.zero, F64.zero, F64.zero, F64.zero⟩ }, time := 0 }
 
@@ -28,7 +31,8 @@ def initD : DState :=
     ac := { poll := pc, wander := { lowProb := F64.zero, highProb := F64.zero, hysteresis := 16, minWeight := F64.zero },
             outlierThreshold := F64.zero, initialWander := F64.zero, initialFreqUncertainty := F64.zero,
             meddlingThreshold := 0 },
-    st := SState.new, now := 0 }
+    st := SState.new, now := 0,
+    ost := OState.new { precision := F64.zero, accuracy := F64.zero }, period := none }
 
 def kvF? (ws : List String) (k : String) : Option F64 := (kv? ws k).bind F64.ofHex?
 
@@ -51,6 +55,26 @@ def snapLine (d : DState) : String :=
       | some (o, u, dl) => s!"{o},{u},{dl}"
       | none => "panic"
     s!"{kLine sn.k} wd={sn.wander.toHex} dl={sn.delay.toHex} su={sn.sourceUncertainty} sd={sn.sourceDelay} lu={sn.lastUpdate} poll={poll} obs={obs}"
+
+def perStr (p : Option F64) : String := match p with | some x => x.toHex | none => "-"
+
+def osnapLine (d : DState) : String :=
+  let snap := d.ost.snapshot d.ac d.period
+  let poll := d.ost.desiredPoll d.sc.lim
+  match snap with
+  | none => s!"nosnap poll={poll} obs=-"
+  | some osn =>
+    let sn := osn.snap
+    let obs := match sn.observe with
+      | some (o, u, dl) => s!"{o},{u},{dl}"
+      | none => "panic"
+    s!"{kLine sn.k} wd={sn.wander.toHex} dl={sn.delay.toHex} su={sn.sourceUncertainty} sd={sn.sourceDelay} lu={sn.lastUpdate} per={perStr osn.period} poll={poll} obs={obs}"
+
+def kvPeriod? (ws : List String) : Option (Option F64) :=
+  match kv? ws "period" with
+  | some "-" => some none
+  | some h => (F64.ofHex? h).map some
+  | none => none
 
 def stepLine (d : DState) (line : String) : DState × String :=
   match words line with
@@ -154,6 +178,62 @@ def stepLine (d : DState) (line : String) : DState × String :=
       match d.st.freqSteer t s with
       | some st' => let d' := { d with st := st' }; (d', snapLine d')
       | none => (d, "panic")
+    | _, _ => (d, "bad-op")
+  | "ocfg" :: ws =>
+    match kvInt? ws "min", kvInt? ws "max", kvInt? ws "init", kvF? ws "plow", kvF? ws "phigh",
+          kvInt? ws "physt", kvF? ws "pminw", kvF? ws "wlow", kvF? ws "whigh", kvInt? ws "whyst",
+          kvF? ws "wthr", kvF? ws "iw", kvF? ws "ifu", kvInt? ws "medd", kvF? ws "prec", kvF? ws "acc",
+          kvPeriod? ws with
+    | some mn, some mx, some ini, some plow, some phigh, some physt, some pminw, some wlow, some whigh,
+      some whyst, some wthr, some iw, some ifu, some medd, some prec, some acc, some period =>
+      ({ d with
+          sc := { lim := ⟨mn, mx⟩, initial := ini },
+          ac := { poll := { lowWeight := wlow, highWeight := whigh, hysteresis := whyst, stepThreshold := wthr },
+                  wander := { lowProb := plow, highProb := phigh, hysteresis := physt, minWeight := pminw },
+                  outlierThreshold := F64.zero, initialWander := iw, initialFreqUncertainty := ifu,
+                  meddlingThreshold := medd },
+          ost := OState.new { precision := prec, accuracy := acc }, period := period }, "ok")
+    | _, _, _, _, _, _, _, _, _, _, _, _, _, _, _, _, _ => (d, "bad-op")
+  | "omeas" :: ws =>
+    match kvNat? ws "mono", kvNat? ws "lt", kvInt? ws "off", kvInt? ws "rdelay", kvInt? ws "rdisp" with
+    | some mono, some lt, some off, some rdelay, some rdisp =>
+      let now := d.now + mono
+      let m : OMeas := { offset := off, localtime := lt, rootDelay := rdelay, rootDisp := rdisp }
+      match d.ost.update LOOP_FUEL d.sc d.ac d.period m now with
+      | .panic => ({ d with now := now }, "panic")
+      | .fuel => ({ d with now := now }, "timeout")
+      | .ok (st', b) =>
+        let d' := { d with ost := st', now := now }
+        let msg := b && (st'.snapshot d.ac d.period).isSome
+        (d', s!"msg={boolStr msg} {osnapLine d'}")
+    | _, _, _, _, _ => (d, "bad-op")
+  | "ostep" :: ws =>
+    match kvF? ws "s" with
+    | some s =>
+      match d.ost.offsetSteer LOOP_FUEL s d.period with
+      | .ok st' => let d' := { d with ost := st' }; (d', osnapLine d')
+      | .panic => (d, "panic")
+      | .fuel => (d, "timeout")
+    | none => (d, "bad-op")
+  | "ofreq" :: ws =>
+    match kvNat? ws "t", kvF? ws "s" with
+    | some t, some s =>
+      match d.ost.freqSteer LOOP_FUEL t s d.period with
+      | .ok st' => let d' := { d with ost := st' }; (d', osnapLine d')
+      | .panic => (d, "panic")
+      | .fuel => (d, "timeout")
+    | _, _ => (d, "bad-op")
+  | "owrap" :: ws =>
+    match kvF? ws "x0", kvF? ws "x1", kvF? ws "p" with
+    | some x0, some x1, some p =>
+      match correctPeriodicity LOOP_FUEL { zeroK with s := { zeroK.s with x := ⟨x0, x1⟩ } } (some p) with
+      | .ok k => (d, s!"{k.s.x.x0.toHex} {k.s.x.x1.toHex}")
+      | .panic => (d, "panic")
+      | .fuel => (d, "timeout")
+    | _, _, _ => (d, "bad-op")
+  | "orem" :: ws =>
+    match kvF? ws "x", kvF? ws "y" with
+    | some x, some y => (d, (fmod x y).toHex)
     | _, _ => (d, "bad-op")
   | _ => (d, "bad-op")
 
